@@ -179,7 +179,7 @@ class SequentialCB(Evaluator):
             rewards = interaction['rewards'     ] if has_rewards else None
             off_rwd = interaction['reward'      ] if has_reward  else None
             off_act = interaction['action'      ] if has_action  else None
-            off_pr  = interaction['probability' ] if has_prob    else none
+            off_pr  = interaction.get('probability', none) #read per interaction: a log may give propensities for some interactions only
 
             lrn_rwds = interaction[learn_target] if learn_type else rewards if lrn_on else None
             val_rwds = interaction[eval_target ] if eval_type  else rewards if val_on else None
